@@ -663,6 +663,16 @@ class Discharger:
             res["info"] = ob.info
             res["model"] = None
             res["time_s"] = 0.0
+            ties = getattr(pr, "numties", None)
+            if not ob.goal and ties:
+                # a path of the number -> text model may exist only at exact rounding ties (left to the C library):
+                # prefer a tie-free input for the replay; a tie-only path is confirmed or dropped by the real run
+                r2, m2 = self.solver.check(pr.pc + pr.divs + list(ties), self.ob_timeout_ms, want_model=True)
+                if r2 == "sat":
+                    res["model"] = model_inputs(m2, pr.inputs)
+                else:
+                    res["uf_model"] = True
+                    res["tie_only"] = True
             return res
         goal = ob.goal
         # poison reaches the obligation?
@@ -724,6 +734,17 @@ class Discharger:
                 res["uf_model"] = bool(uf)
                 return res
         if r == "sat":
+            ties = getattr(pr, "numties", None)
+            if ties:
+                # number -> text contract leaves exact decimal ties to the C library: prefer a counterexample away from
+                # every tie (it must reproduce); one that exists only at ties is confirmed or dropped by the real run
+                r2, m2 = self.solver.check(base + list(ties) + [z3.Not(goal)], self.ob_timeout_ms, want_model=True)
+                res.update(status="refuted", time_s=time.time() - t0)
+                res["model"] = model_inputs(m2 if r2 == "sat" else m, pr.inputs)
+                res["model_all"] = _all_vars(m2 if r2 == "sat" else m)
+                res["uf_model"] = r2 != "sat"
+                res["tie_only"] = r2 != "sat"
+                return res
             # try for a well-separated counterexample (easier to reproduce in floating point)
             m_nice = self._nice(pr, ob, base) if not (uf or ob.abstract) else None
             res.update(status="refuted", time_s=time.time() - t0)
